@@ -169,12 +169,14 @@ def check_C20(tier, seed):
     res.coverage["rule"] = ("every rejected document of the generators (truncations, single-byte corruptions, invalid UTF-8, multi-line documents) on every "
                             "entry point: TLC checks offset <= length, (line, column) = LineCol(input, offset), Display/Debug returned, no lookup category; "
                             "streams and iterators are polled 3 more times after the first error/end (latch). non-trivial = rejected inputs with an error record")
-    jt_record_validate("C20", tier, seed + 2, res, 6000 if tier == QUICK else 300000, checks=("errpos",))
+    jt_record_validate("C20", tier, seed + 2, res, 6000 if tier == QUICK else 300000, checks=("errpos", "panic"))
+    # terminal latch of streams and lazy iterators (polled 3 more times after the first error / end)
+    lg_record_validate("C20", tier, seed + 20, res, 3000 if tier == QUICK else 100000, ("latch", "panic"))
     st = vlib.tlc_mc("MC_Errors", {}, tag="MC_Errors")
     res.coverage["states"] += st["distinct"]
     res.coverage["transitions"] += st["states"]
     res.coverage.setdefault("tlc", {})["MC_Errors"] = {k: st[k] for k in ("states", "distinct", "seconds")}
-    res.coverage["distinct_nontrivial"] = res.coverage["record"]["jt"].get("rejected_docs", 0)
+    res.coverage["distinct_nontrivial"] = res.coverage.get("record", {}).get("jt", {}).get("rejected_docs", 0)
     return res.finish()
 
 
@@ -366,4 +368,14 @@ def check_C16(tier, seed):
                             "after every history; survivors are read in full after their document is dropped. non-trivial = histories containing at least one mutation")
     dom_replay("C16", tier, seed, res, ("arena", "leak", "crash"))
     res.coverage["exhaustive"] = True
+    return res.finish()
+
+
+def check_C13(tier, seed):
+    res = Result("C13", tier, seed, "model_checking")
+    res.coverage["rule"] = ("accessor sets (type, is_*, bool, str, number, raw number, serialisation, container length) of LazyValue / OwnedLazyValue obtained through get, "
+                            "from_slice + pointer, From<LazyValue>, clone after cache fill, at every path of generated documents and for scalar documents of every JSON type; "
+                            "histories of clone / read / push / pop / append_pair / replace / take / get_mut on OwnedLazyValue: TLC denotes every recorded serialisation and compares "
+                            "it with the plain-tree model after each step (clone unaffected by later mutation)")
+    generic_record_validate("C13", res, "lz-record", ["--seed", seed, "--n", 6000 if tier == QUICK else 200000], "Trace_Lazy", {}, "lazy")
     return res.finish()
